@@ -313,7 +313,11 @@ class Recorder:
         if a1 is not None:
             rep = self.parse_report(a1["summary"], a1["tree"])
             bi = tree.best_individual
-            rep["bestfit_ok"] = int(rep.get("bestfit") == f"{bi.fitness:.4e}")
+            try:        # the printed best fitness agrees with the tree's best up to the printed precision
+                shown = float(rep.get("bestfit"))
+                rep["bestfit_ok"] = int(shown == bi.fitness or abs(shown - bi.fitness) <= 1e-3 * max(abs(bi.fitness), abs(shown)))
+            except (TypeError, ValueError):
+                rep["bestfit_ok"] = 0
             rep["intree"] = int(a1["tree"] in a1["summary"])
             # which demes carry the global best fitness (ranks are not available for report text: compare floats)
             rep["isbest"] = [[d.id, int(d.best_individual is not None and d.best_individual.fitness == bi.fitness)]
